@@ -57,7 +57,7 @@ class Run:
             else:
                 sim.steps(n)
                 sim.synchronize()
-            if abs(sim.t - T) > 1e-9 * abs(T):
+            if not (abs(sim.t - T) <= 1e-9 * abs(T)):
                 return ("time", sim.t, T)
             e = 0.0
             for i in range(sim.N):
@@ -324,7 +324,7 @@ def run(ctx):
             continue
         err, dtm = r[1]
         perr[t] = err
-        if abs(dtm) > 1e-9:
+        if not (abs(dtm) <= 1e-9):
             ctx.violation("trace-peri:time:%s:%s" % (mode, d), "%s: ended %.3g away from the requested time" % (lab, dtm), {"peri": list(t)})
         # Wisdom-Holman class: the error is proportional to the planets' masses; whatever the prescription, the pericentre itself is
         # integrated by BS (eps 1e-8) or IAS15, so the result must be in BS's accuracy class relative to that
@@ -335,7 +335,7 @@ def run(ctx):
     for (e, m, sgn, mode, n), err in perr.items():
         # the three prescriptions advertise the same accuracy: none may be an order of magnitude worse than the best of them
         best = min(perr.get((e, m, sgn, mo, n), float("inf")) for mo in PERI_MODES)
-        if err > 10 * best + 3e-7:      # 30 x the BS tolerance: BS-based prescriptions are not held to IAS15's accuracy
+        if not (err <= 10 * best + 3e-7):      # 30 x the BS tolerance: BS-based prescriptions are not held to IAS15's accuracy
             ctx.violation("trace-peri:relation:%s:%s" % (mode, "forward" if sgn > 0 else "backward"),
                           "TRACE peri_mode=%s, inner planet e=%g m=%g, %d steps %s: error %.3g, but %.3g with another pericentre prescription" % (mode, e, m, n, "forward" if sgn > 0 else "backward", err, best), {"peri": [e, m, sgn, mode, n]})
     # WHFast512 exists only in the AVX512 build: its part runs in a process of its own (mc/w512.py)
